@@ -140,6 +140,8 @@ def run(ctx):
             relatives = []      # objects the current neuron was derived from / produced together with (inputs left behind, other halves)
             for k in range(int(rng.integers(2, maxsteps + 1))):
                 kind = str(rng.choice(['warm', 'op', 'op', 'edit'] + (['relative', 'relative'] if relatives else [])))
+                if relatives and hist and hist[-1].get('step') == 'op' and not hist[-1].get('inplace') and rng.random() < 0.35:
+                    kind = 'relative'
                 after_direct = False
                 if len(x.nodes) < 2:
                     kind = 'edit'
@@ -150,6 +152,8 @@ def run(ctx):
                     if len(r.nodes) < 2:
                         continue
                     inpl = [o for o in ops if skelops.OPS[o].inplace_kw]
+                    if rng.random() < 0.5:      # operations that edit a cached graph in place
+                        inpl = [o for o in inpl if 'reroot' in o] or inpl
                     name = inpl[int(rng.integers(len(inpl)))]
                     op = skelops.OPS[name]
                     if rng.random() < 0.25:
@@ -262,6 +266,60 @@ def run(ctx):
                     if not same(got, want):
                         ctx.violation('cached view differs from a freshly constructed neuron', desc, dict(got=short(got), fresh=short(want)))
                         break
+
+    # ---- lineages: y derived from x by a non-inplace operation (views of x warm), then x edited IN PLACE: nothing of y may move
+    inpl = [o for o in ops if skelops.OPS[o].inplace_kw]
+    for h in range(ctx.n(160, 3000)):
+        f = F.gen_forest(rng, 2, ctx.n(30, 60))
+        be = str(rng.choice(['fastcore', 'igraph', 'nx', 'nx']))
+        with F.backend(be):
+            x = F.mk_neuron(f, soma=None)
+            for v in ('graph', 'igraph', 'segments', 'geodesic_matrix'):
+                guarded(read_view, x, v)
+            name = ops[int(rng.integers(len(ops)))] if rng.random() < 0.5 else str(rng.choice(['cut_distal', 'cut_proximal', 'subset', 'reroot']))
+            op = skelops.OPS[name]
+            st, p = guarded(op.gen, rng, x)
+            if st != 'ok' or p is None:
+                continue
+            st, res = guarded(op.apply, x, p, False)
+            if st != 'ok':
+                continue
+            ys = [o for o in (res if isinstance(res, list) else [res]) if o is not None]
+            ys = [o[0] if hasattr(o, 'neurons') and len(o) else o for o in ys]
+            ys = [o for o in ys if hasattr(o, 'nodes') and o is not x and len(o.nodes) > 0][:2]
+            if not ys or len(x.nodes) < 2:
+                continue
+            hist = [dict(step='warm', views=['graph', 'igraph', 'segments', 'geodesic_matrix']), dict(step='op', op=name, params=p, inplace=False)]
+            if rng.random() < 0.5:
+                for y in ys:
+                    guarded(read_view, y, 'graph')
+                hist.append(dict(step='warm-derived', views=['graph']))
+            cand = [o for o in inpl if 'reroot' in o] if rng.random() < 0.6 else inpl
+            name2 = cand[int(rng.integers(len(cand)))]
+            op2 = skelops.OPS[name2]
+            st, p2 = guarded(op2.gen, rng, x)
+            if st != 'ok' or p2 is None:
+                continue
+            st, _ = guarded(op2.apply, x, p2, True)
+            hist.append(dict(step='op-on-parent', op=name2, params=p2, inplace=True, status=st))
+            ctx.count('lineage:%s>%s' % (name, name2))
+            for obj, what in [(y, 'object derived earlier from the neuron that was then edited in place') for y in ys] + [(x, 'the neuron edited in place')]:
+                st0, fr0 = guarded(fresh, obj)
+                if st0 != 'ok':
+                    continue
+                bad = False
+                for v in list(TYPED) + ['graph', 'igraph', 'segments', 'geodesic_matrix', 'cable_length', 'simple']:
+                    s1, got = guarded(read_view, obj, v)
+                    s2, want = guarded(read_view, fr0, v)
+                    ctx.case((F.table_of(obj), str(hist[1:]), v, what), nontrivial=True, sample=dict(history=hist, view=v) if h < 2 else None)
+                    ctx.count('view-lineage:' + v)
+                    if s1 == 'ok' and s2 == 'ok' and not same(got, want):
+                        ctx.violation('cached view differs from a freshly constructed neuron (' + what + ')',
+                                      dict(start=f, backend=be, history=hist, view=v), dict(got=short(got), fresh=short(want)))
+                        bad = True
+                        break
+                if bad:
+                    break
 
 
 def same(a, b):
